@@ -401,12 +401,23 @@ def postingRTCheck (w : List Char → Nat) (p : Posting) (rest : List Char) : Bo
   | .ok p' r => p' == p && r == rest
   | _ => false
 
-example : wfTransaction exTxn = true := by decide +kernel
-example : wfEntry (.txn exTxn) = true ∧ isDirectiveOrTxn (.txn exTxn) = true := by decide +kernel
+/-- `wfVExpr` is defined by well-founded recursion (the kernel does not unfold it): unfold the predicates on the
+concrete tree with their equations, then let the kernel evaluate the rest -/
+macro "wf_decide" : tactic => `(tactic|
+  (simp only [wfEntry, wfTransaction, wfPosting, wfPostingAmount, wfLot, wfExchange, wfVExpr, wfAdd, wfMul, wfUnary,
+     List.all_cons, List.all_nil]
+   decide +kernel))
+
+theorem exTxn_wf : wfTransaction exTxn = true := by unfold exTxn; wf_decide
+theorem exTxn_posts_wf : ∀ p ∈ exTxn.posts, wfPosting p = true := by
+  have := exTxn_wf
+  simp only [wfTransaction, Bool.and_eq_true, List.all_eq_true] at this
+  exact this.2
+example : wfEntry (.txn exTxn) = true ∧ isDirectiveOrTxn (.txn exTxn) = true := ⟨exTxn_wf, rfl⟩
 /-- the hypotheses of `transaction_rt` are satisfiable, and its conclusion is what the model computes -/
 example (hE : ExprRT P) (hP : ∀ v ∈ exprsOfTransaction exTxn, P v) :
     transaction (printTransaction widthStd exTxn ++ ['\n']) = .ok exTxn ['\n'] :=
-  transaction_rt hE widthStd exTxn (by decide +kernel) hP ['\n'] (by simp [isSpace])
+  transaction_rt hE widthStd exTxn exTxn_wf hP ['\n'] (by simp [isSpace])
 example : transactionRTCheck widthStd exTxn ['\n'] = true := by decide +kernel
 example : transactionRTCheck widthCjk exTxn ['x'] = true := by decide +kernel
 /-- instances of the conclusion of `ExprRT` on the expressions of the example, in the positions they occur -/
@@ -414,15 +425,15 @@ example : (exprsOfTransaction exTxn).length = 6 := by decide +kernel
 example : ∀ v ∈ exprsOfTransaction exTxn, exprRTCheck v " = 1".toList = true ∧ exprRTCheck v "}".toList = true ∧
     exprRTCheck v "  @ 2".toList = true ∧ exprRTCheck v "\n".toList = true := by decide +kernel
 example (hE : ExprRT P) (hP : ∀ v ∈ exprsOfTransaction exTxn, P v) : EntryRT widthStd (.txn exTxn) :=
-  entryRT_txn hE widthStd exTxn (by decide +kernel) hP
+  entryRT_txn hE widthStd exTxn exTxn_wf hP
 example (hE : ExprRT P) (hP : ∀ p ∈ exTxn.posts, ∀ v ∈ exprsOfPosting p, P v) :
     ∀ p ∈ exTxn.posts, posting (printPosting widthCjk p ++ "  x".toList) = .ok p "  x".toList := by
   intro p hp
-  exact posting_rt hE widthCjk p ((by decide +kernel : ∀ p ∈ exTxn.posts, wfPosting p = true) p hp) (hP p hp) _
+  exact posting_rt hE widthCjk p (exTxn_posts_wf p hp) (hP p hp) _
     (by decide +kernel)
 example : date (printDate ⟨9999, 12, 31⟩ ++ [' ']) = .ok ⟨9999, 12, 31⟩ [' '] :=
   date_rt ⟨9999, 12, 31⟩ (by decide) [' '] (by simp)
-example : preceded space1 lineMetadata (printMetaLine (.comment "x: y z") ++ ['q']) = .ok (.comment "x: y z") ['q'] :=
+example : preceded space1 lineMetadata (printMetaLine (.comment "x y: z") ++ ['q']) = .ok (.comment "x y: z") ['q'] :=
   metaLine_rt_all _ (by decide +kernel) _
 
 /-! ## `wfVExpr` alone is not enough: the full-strength statements, and their negation from a witness
@@ -445,7 +456,7 @@ def cexTxn : Transaction := { date := ⟨2024, 1, 1⟩, posts := [cexPosting] }
 
 theorem not_posting_rt_stmt : ¬ posting_rt_stmt := by
   intro h
-  have h1 := h widthStd cexPosting ['\n'] (by decide +kernel) (by decide +kernel)
+  have h1 := h widthStd cexPosting ['\n'] (by unfold cexPosting; wf_decide) (by decide +kernel)
   have h2 : postingRTCheck widthStd cexPosting ['\n'] = false := by decide +kernel
   unfold postingRTCheck at h2
   rw [h1] at h2
@@ -455,7 +466,7 @@ theorem not_posting_rt_stmt : ¬ posting_rt_stmt := by
 
 theorem not_entryRT_txn_stmt : ¬ entryRT_txn_stmt := by
   intro h
-  have h1 := (h widthStd cexTxn (by decide +kernel)).2 []
+  have h1 := (h widthStd cexTxn (by unfold cexTxn cexPosting; wf_decide)).2 []
   have h2 : (match parseLedgerEntry (printEntry widthStd (.txn cexTxn) ++ ['\n']) with
       | .ok e _ => e == .txn cexTxn
       | _ => false) = false := by decide +kernel
